@@ -361,7 +361,7 @@ func init() {
 
 	cfg := gen.Cfg{ExprDepth: 2, BodyLen: 3, Nest: 3, Calls: true, If: true, For: true, Set: true, SetCap: true, FilterSec: true, Macros: true, Blocks: true}
 	p.Run = func(c *Ctx) {
-		nP := c.Share(c.Pick(700, 20000))
+		nP := c.Share(c.Pick(700, 12000))
 		complete := true
 		for i := 0; i < nP; i++ {
 			if sub.Failed(c) || c.Expired() {
